@@ -3,14 +3,22 @@
 //
 // ops (see lean/Nebula/Driver/Lighthouse.lean):
 //
-//	reset lh=<0|1> v=<1|2> nets=<p,..> lhs=<a,..|-> st=<vpn@ap+ap;..|-> G <-|prefix=T|F ...>   -> ok | err
+//	reset lh=<0|1> v=<1|2> nets=<p,..> lhs=<a,..|-> st=<vpn@ap+ap;..|-> cr=<vpnprefix@mask:port+mask:port;..|->
+//	      G <-|prefix=T|F ...> [R <prefix> <prefix=T|F ...>]...                              -> ok | err
 //	msg <from,..> <type> <ver 0|1|2|3> <vpn|-> <v4 aps|-> <v6 aps|-> <oldrelays|-> <relays|->
 //	        -> S[to:type:vpn:v4:v6:relays;..] P[target>vpn,..] T[addr|-]
 //	nodetails <from,..> <type>       (a NebulaMeta without Details)        -> same format
 //	raw <from,..> <hex>              (arbitrary bytes)                      -> same format
 //	dump                             addrMap: key>list-id ... {list contents}
 //	addrs <vpn>                      CopyAddrs(nil) of addrMap[vpn] | none
-//	learn <vpn,..> <ap>              QueryCache(vpns).LearnRemote(vpns[0], ap) -> ok
+//	roam <vpn,..> <cur|-> <from> <relayed>   the real Interface.handleHostRoaming on a hostinfo of the peer whose remote
+//	                                 list is the lighthouse's; `from` is outside my networks (readOutsidePackets
+//	                                 has dropped anything else before, see `gate`)      -> remote afterwards | -
+//	calc <vpn>                       addCalculatedRemotes(vpn)                -> 0|1
+//	gate <hs1|hs2|roam> <v> <allow|-> <from>   two REAL nodes A (10.0.0.1/24, under test, remote_allow_list =
+//	                                 allow) and B: B's stage-1 handshake / B's stage-2 answer / a data packet of an
+//	                                 established tunnel is injected into A's readOutsidePackets with underlay
+//	                                 source `from`     -> remote=<A's remote for B|-> learned=<from in A's cache 0|1>
 //	block <vpn> <ap>                 addrMap[vpn].BlockRemote                 -> ok | none
 //	delete <vpn,..>                  DeleteVpnAddrs                           -> ok
 package lighthouse
@@ -32,7 +40,9 @@ import (
 	"github.com/slackhq/nebula/config"
 	"github.com/slackhq/nebula/header"
 	"github.com/slackhq/nebula/test"
+	yaml "go.yaml.in/yaml/v3"
 	"verifharness/hlib"
+	"verifharness/relaynet"
 )
 
 // ---- generator
@@ -62,6 +72,18 @@ func listOf(r *hlib.Rand, n int, f func() string) string {
 }
 
 func gen(r *hlib.Rand, n int, tier, profile string, emit func(string, ...any)) {
+	// the learned-address gate on two real nodes (A = 10.0.0.1/24 at 192.0.2.1, B = 10.0.0.2 at 192.0.2.2)
+	ng := n / 40
+	if profile != "C36" {
+		ng = n / 200
+	}
+	for i := 0; i < ng; i++ {
+		from := hlib.Pick(r, "192.0.2.2:4242", "192.0.2.2:4242", "192.0.2.9:4242", "10.0.0.77:4242", "10.0.0.2:4242", "10.0.1.1:4242",
+			"9.255.255.255:1", "192.168.0.5:4242", "192.168.255.255:9", "[2001:db8::1]:4242", "[fd00::1]:4242", "8.8.8.8:53")
+		allow := hlib.Pick(r, "-", "-", "00000000/0=T,c0a80000/16=F", "c0000200/24=T", "00000000/0=T,c0000209/32=F,00000000000000000000000000000000/0=F", "08080808/32=F",
+			"00000000/0=T~0a000000/24~c0000209/32=F", "00000000/0=T~0a000002/32~00000000/0=F,c0000200/24=T", "08080808/32=F~0a000000/24~09ffffff/32=F,c0a80000/16=F", "00000000/0=T~0a000003/32~00000000/0=F")
+		emit("gate %s %d %s %s", hlib.Pick(r, "hs1", "hs2", "roam", "roam"), hlib.Pick(r, 1, 2), allow, hlib.AddrPortHex(netip.MustParseAddrPort(from)))
+	}
 	for i := 0; i < n; {
 		amLH := r.Chance(1, 2)
 		nets := "0a800001/24"
@@ -96,7 +118,7 @@ func gen(r *hlib.Rand, n int, tier, profile string, emit func(string, ...any)) {
 				} else if r.Bool() {
 					as = append(as, ap4(r))
 				} else {
-					a := netip.MustParseAddrPort(fmt.Sprintf("[%s]:4242", hlib.Pick(r, "2001:db8::1", "fd80::99", "fd81::1")))
+					a := netip.MustParseAddrPort(fmt.Sprintf("[%s]:4242", hlib.Pick(r, "2001:db8::1", "fd80::99", "fd81::1", "::ffff:10.128.0.99", "::ffff:192.168.0.5", "::ffff:70.2.2.9")))
 					as = append(as, hlib.AddrPortHex(a))
 				}
 			}
@@ -116,7 +138,30 @@ func gen(r *hlib.Rand, n int, tier, profile string, emit func(string, ...any)) {
 		case 2:
 			g = "01010101/32=F"
 		}
-		emit("reset lh=%s v=%d nets=%s lhs=%s st=%s G %s", hlib.B(amLH), hlib.Pick(r, 1, 2, 2), nets, lhs, st, g)
+		cr := "-"
+		if r.Chance(1, 3) {
+			// calculated remotes for 10.128.0.0/24 (and sometimes a more specific entry): the overlay host bits are
+			// spliced into a public, a private-denied or an overlay-internal underlay network
+			m := func() string {
+				return hlib.PrefixHex(netip.MustParsePrefix(hlib.Pick(r, "70.3.3.0/24", "192.168.7.0/24", "10.128.0.0/24", "70.4.0.0/16", "1.1.1.1/32"))) + ":" + fmt.Sprint(hlib.Pick(r, 4242, 4243))
+			}
+			cr = hlib.PrefixHex(netip.MustParsePrefix("10.128.0.0/24")) + "@" + m()
+			for x := r.Intn(3); x > 0; x-- {
+				cr += "+" + m()
+			}
+			if r.Chance(1, 3) {
+				cr += ";" + hlib.PrefixHex(netip.MustParsePrefix("10.128.0.8/29")) + "@" + m()
+			}
+		}
+		if g != "-" && r.Chance(1, 2) {
+			// per-overlay-range lists: apply in addition to the global one
+			g += " R " + hlib.PrefixHex(netip.MustParsePrefix(hlib.Pick(r, "10.128.0.8/29", "10.128.0.0/24", "fd80::/64"))) + " " +
+				hlib.Pick(r, "46000000/8=F", "00000000/0=T 46010101/32=F", "08080808/32=T", "00000000/0=F 01010101/32=T", "00000000000000000000000000000000/0=F")
+			if r.Chance(1, 3) {
+				g += " R " + hlib.PrefixHex(netip.MustParsePrefix("10.128.0.20/32")) + " 00000000/0=T ac100000/12=F"
+			}
+		}
+		emit("reset lh=%s v=%d nets=%s lhs=%s st=%s cr=%s G %s", hlib.B(amLH), hlib.Pick(r, 1, 2, 2), nets, lhs, st, cr, g)
 		i++
 		from := func() string {
 			switch r.Intn(10) {
@@ -139,8 +184,14 @@ func gen(r *hlib.Rand, n int, tier, profile string, emit func(string, ...any)) {
 				emit("dump")
 			case 1, 6:
 				emit("addrs %s", hx(hlib.Pick(r, "10.128.0.12", "10.128.0.2", "10.128.0.10", "10.128.0.11", "10.128.0.20", "fd80::20", hlib.Pick(r, peers...))))
-			case 2:
-				emit("learn %s %s", from(), hlib.Pick(r, ap4(r), ap6(r)))
+			case 2, 7:
+				// roaming / handshake learn through the real gate: sources outside my networks only (the
+				// readOutsidePackets check precedes; it is exercised by `gate`)
+				via := hlib.Pick(r, "1.1.1.1:4242", "8.8.8.8:1", "70.1.1.1:4242", "192.168.0.5:4242", "172.16.0.9:4242", "10.0.0.1:4242", "[2001:db8::1]:4242", "[fd81::1]:4242", "70.1.1.1:1")
+				cur := hlib.Pick(r, "-", "-", hlib.AddrPortHex(netip.MustParseAddrPort("70.1.1.1:4242")), hlib.AddrPortHex(netip.MustParseAddrPort("1.1.1.1:4242")))
+				emit("roam %s %s %s %s", from(), cur, hlib.AddrPortHex(netip.MustParseAddrPort(via)), hlib.Pick(r, "0", "0", "0", "1"))
+			case 8:
+				emit("calc %s", hx(hlib.Pick(r, "10.128.0.10", "10.128.0.11", "10.128.0.12", "10.128.0.20", "10.128.0.99", "10.129.0.1")))
 			case 3:
 				emit("block %s %s", hx(hlib.Pick(r, "10.128.0.12", "10.128.0.2", "10.128.0.10", "10.128.0.11", hlib.Pick(r, peers...))), hlib.Pick(r, ap4(r), "46020202:1000", "46010102:4242"))
 			case 4:
@@ -363,6 +414,9 @@ func newExec(t *testing.T) func([]string) string {
 	}
 
 	return func(a []string) string {
+		if a[0] == "gate" {
+			return gate(a)
+		}
 		if a[0] != "reset" && lh == nil {
 			return "none"
 		}
@@ -412,11 +466,36 @@ func newExec(t *testing.T) func([]string) string {
 			}
 			if gi+1 < len(a) && a[gi+1] != "-" {
 				m := map[string]any{}
-				for _, e := range a[gi+1:] {
-					k, v, _ := strings.Cut(e, "=")
-					m[hlib.ParsePrefixHex(k).String()] = v == "T"
+				ranges := map[string]any{}
+				cur := m
+				toks := a[gi+1:]
+				for i := 0; i < len(toks); i++ {
+					if toks[i] == "R" {
+						cur = map[string]any{}
+						ranges[hlib.ParsePrefixHex(toks[i+1]).String()] = cur
+						i++
+						continue
+					}
+					k, v, _ := strings.Cut(toks[i], "=")
+					cur[hlib.ParsePrefixHex(k).String()] = v == "T"
 				}
 				lhc["remote_allow_list"] = m
+				if len(ranges) > 0 {
+					lhc["remote_allow_ranges"] = ranges
+				}
+			}
+			if cr := kv["cr"]; cr != "" && cr != "-" {
+				crm := map[string]any{}
+				for _, e := range strings.Split(cr, ";") {
+					k, v, _ := strings.Cut(e, "@")
+					var l []any
+					for _, x := range strings.Split(v, "+") {
+						i := strings.LastIndexByte(x, ':')
+						l = append(l, map[string]any{"mask": hlib.ParsePrefixHex(x[:i]).String(), "port": hlib.Atoi(x[i+1:])})
+					}
+					crm[hlib.ParsePrefixHex(k).String()] = l
+				}
+				lhc["calculated_remotes"] = crm
 			}
 			c.Settings["lighthouse"] = lhc
 			var ctx context.Context
@@ -513,10 +592,19 @@ func newExec(t *testing.T) func([]string) string {
 				return "none"
 			}
 			return aps(rl.CopyAddrs(nil))
-		case "learn":
+		case "roam":
 			vs := parseAddrs(a[1])
-			lh.QueryCache(vs).LearnRemote(vs[0], hlib.ParseAddrPortHex(a[2]))
-			return "ok"
+			var cur netip.AddrPort
+			if a[2] != "-" {
+				cur = hlib.ParseAddrPortHex(a[2])
+			}
+			nr := nebula.VerifLHRoam(lh, l, vs, cur, hlib.ParseAddrPortHex(a[3]), a[4] == "1")
+			if !nr.IsValid() {
+				return "-"
+			}
+			return hlib.AddrPortHex(nr)
+		case "calc":
+			return hlib.B(nebula.VerifLHAddCalculated(lh, hlib.ParseAddrHex(a[1])))
 		case "block":
 			rl, ok := nebula.VerifLHAddrMap(lh)[hlib.ParseAddrHex(a[1])]
 			if !ok {
@@ -530,6 +618,124 @@ func newExec(t *testing.T) func([]string) string {
 		}
 		return "bad-op"
 	}
+}
+
+// gate runs one packet through the real packet path of a real node (readOutsidePackets -> handshake manager /
+// handleHostRoaming -> SetRemote -> LearnRemote) and reports what node A now believes about B.
+func gate(a []string) string {
+	ver := cert.Version2
+	if a[2] == "1" {
+		ver = cert.Version1
+	}
+	net, err := relaynet.New(1, ver, 100, []relaynet.NodeSpec{{}, {}})
+	if err != nil {
+		return "err " + err.Error()
+	}
+	defer func() {
+		net.Close()
+		synctest.Wait()
+	}()
+	A, B := net.Nodes[0], net.Nodes[1]
+	if a[3] != "-" {
+		// <global entries>[~<range prefix>~<range entries>]
+		parts := strings.Split(a[3], "~")
+		list := func(s string) map[string]any {
+			m := map[string]any{}
+			for _, e := range strings.Split(s, ",") {
+				k, v, _ := strings.Cut(e, "=")
+				m[hlib.ParsePrefixHex(k).String()] = v == "T"
+			}
+			return m
+		}
+		m := list(parts[0])
+		lhc, _ := A.C.Settings["lighthouse"].(map[string]any)
+		if lhc == nil {
+			return "err no lighthouse settings"
+		}
+		ns := map[string]any{}
+		for k, v := range A.C.Settings {
+			ns[k] = v
+		}
+		nl := map[string]any{}
+		for k, v := range lhc {
+			nl[k] = v
+		}
+		nl["remote_allow_list"] = m
+		if len(parts) == 3 {
+			nl["remote_allow_ranges"] = map[string]any{hlib.ParsePrefixHex(parts[1]).String(): list(parts[2])}
+		}
+		ns["lighthouse"] = nl
+		y, err := yaml.Marshal(ns)
+		if err != nil {
+			return "err " + err.Error()
+		}
+		if err := A.Reload(string(y)); err != nil {
+			return "err " + err.Error()
+		}
+	}
+	from := hlib.ParseAddrPortHex(a[4])
+	last := func(to netip.AddrPort) []byte {
+		var out []byte
+		for _, w := range net.Take() {
+			if w.To == to {
+				out = w.Data
+			}
+		}
+		return out
+	}
+	switch a[1] {
+	case "hs1":
+		B.InjectLightHouseAddr(A.Vpn, A.Udp)
+		B.StartHandshake(A.Vpn)
+		p := last(A.Udp)
+		if p == nil {
+			return "err no stage-1 packet"
+		}
+		A.Inject(from, p)
+	case "hs2":
+		A.InjectLightHouseAddr(B.Vpn, B.Udp)
+		A.StartHandshake(B.Vpn)
+		p := last(B.Udp)
+		if p == nil {
+			return "err no stage-1 packet"
+		}
+		B.Inject(A.Udp, p)
+		p = last(A.Udp)
+		if p == nil {
+			return "err no stage-2 packet"
+		}
+		A.Inject(from, p)
+	case "roam":
+		if ia, _ := net.Handshake(1, 0); ia == 0 {
+			return "err handshake failed"
+		}
+		net.Take()
+		B.SendTun(relaynet.IPv4Packet(B.Vpn, A.Vpn, 1000, 2000, []byte("ping")))
+		p := last(A.Udp)
+		if p == nil {
+			return "err no data packet"
+		}
+		A.Inject(from, p)
+	default:
+		return "bad-op"
+	}
+	st := A.State()
+	remote := "-"
+	for _, h := range st.Hosts {
+		if len(h.VpnAddrs) > 0 && h.VpnAddrs[0] == B.Vpn && h.Remote.IsValid() {
+			remote = hlib.AddrPortHex(h.Remote)
+		}
+	}
+	learned := false
+	for _, e := range st.LhCache {
+		if k, v, ok := strings.Cut(e, "="); ok && k == B.Vpn.String() {
+			v, _, _ = strings.Cut(v, "|")
+			for _, x := range strings.Split(v, ",") {
+				learned = learned || x == from.String()
+			}
+		}
+	}
+	return "remote=" + remote + " learned=" + hlib.B(learned)
 }
 
 func TestEngine(t *testing.T) {
